@@ -460,11 +460,13 @@ def gen_round(rng, tier, force=None):
     valid = rng.choice(["all", "all", "mask", "mask", "mask", "none", "norm"])
     return dict(kind="round", nd=nd, n=n, ck=ck, regime=regime, lo=[S(x) for x in lo], cell=[S(x) for x in cell],
                 flip=flip, dims=dims, units=units, tf=tf, bc=bc, subs=subs, nvdim=nvdim, vdims=vdims, unit=unit,
-                dtype=dtype, vseed=rng.randrange(2 ** 31), vmode=rng.choice(["plain", "plain", "bits", "special"]),
+                dtype=dtype, vseed=rng.randrange(2 ** 31), vmode=rng.choice(["plain", "plain", "bits", "special", "zero-imag"]),
                 valid=valid, limit=[])
 
 
 def rand_float(r, mode, width=64):
+    if mode == "zero-imag":
+        mode = "plain"
     if mode == "bits":
         if width == 64:
             return struct.unpack("<d", struct.pack("<Q", r.getrandbits(64)))[0]
@@ -489,8 +491,12 @@ def make_values(rc, shape):
             a = np.array([rand_float(r, mode, w) for _ in range(size)], dtype=np.float64).astype(dt)
         elif dt.kind == "c":
             w = dt.itemsize * 4
-            a = np.array([complex(rand_float(r, mode, w), rand_float(r, mode, w)) for _ in range(size)],
-                         dtype=np.complex128).astype(dt)
+            if mode == "zero-imag":       # a complex field stays complex even when it could be real
+                a = np.array([complex(rand_float(r, "plain", w), r.choice([0.0, 0.0, -0.0, 1e-300]))
+                              for _ in range(size)], dtype=np.complex128).astype(dt)
+            else:
+                a = np.array([complex(rand_float(r, mode, w), rand_float(r, mode, w)) for _ in range(size)],
+                             dtype=np.complex128).astype(dt)
         elif dt.kind == "b":
             a = np.array([r.random() < 0.5 for _ in range(size)], dtype=bool)
         else:
@@ -734,9 +740,116 @@ def buildable(rc):
     return printable(s)
 
 
+# ------------------------------------------------------------------ directed core
+def _rc(**over):
+    """hand-written round recipe: a 4 x 2 mesh of half-by-one cells on float corners, scalar float64 field"""
+    rc = dict(kind="round", nd=2, n=[4, 2], ck="f", regime="dyadic", lo=["0/1", "0/1"], cell=["1/2", "1/1"],
+              flip=[False, False], dims=None, units=None, tf=None, bc="", subs=[], nvdim=1, vdims=None, unit=None,
+              dtype="float64", vseed=4242, vmode="plain", valid="all", limit=[], ops=None, generation=1,
+              prewrite=False, twin=False, sidecar=None)
+    rc.update(over)
+    if rc["unit"] == "None":
+        rc["limit"] = rc["limit"] + ["unit-is-the-marker"]
+    return rc
+
+
+def _sub(name, ck, i0, i1, flip=None):
+    return dict(name=name, ck=ck, i0=i0, i1=i1, flip=flip or [False] * len(i0))
+
+
+def directed_core():
+    """the same cases in every run, tier and seed: one small group per mechanism a seeded change has touched
+    (/verif/seeded/C10-*), so that detecting those changes never depends on the seed"""
+    whole, left, mid_frac, right = (_sub("whole", "i", [0, 0], [4, 2]), _sub("left", "i", [0, 0], [2, 2]),
+                                    _sub("mid", "f", [1, 0], [3, 1]), _sub("right", "f", [2, 1], [4, 2]))
+    R = []
+    # a1 / e1: integer-typed region corners, integer- and float-typed subregions, fractional corners, any order
+    for subs in ([mid_frac], [left, mid_frac], [mid_frac, left], [left, whole, mid_frac], [left], []):
+        R.append(_rc(ck="i", lo=["-3/1", "5/1"], subs=subs, valid="mask", unit="A/m"))
+    R.append(_rc(ck="i", nd=1, n=[4], lo=["2/1"], cell=["1/2"], flip=[True], subs=[_sub("s", "f", [1], [3])], vseed=4243))
+    R.append(_rc(ck="i", nd=3, n=[2, 2, 1], lo=["0/1", "-1/1", "7/1"], cell=["1/2", "3/2", "2/1"], flip=[False] * 3,
+                 subs=[_sub("k", "f", [1, 0, 0], [2, 1, 1])], nvdim=3))
+    R.append(_rc(ck="f", subs=[left, mid_frac]))          # float region, integer-typed subregion
+    # b1: several subregions, insertion order not alphabetical, distinct boxes, overlapping
+    R.append(_rc(subs=[_sub("zeta", "f", [0, 0], [1, 1]), _sub("alpha", "f", [1, 0], [4, 2]),
+                       _sub("mid", "f", [2, 1], [3, 2]), _sub("Beta", "i", [0, 0], [4, 2])], bc="xy"))
+    # a3: values in invalid cells survive (float, complex, integer payloads)
+    for dt in ("float64", "complex128", "int32"):
+        R.append(_rc(valid="mask", dtype=dt, nvdim=2, vseed=77))
+    R.append(_rc(valid="none", vmode="special"))
+    # b2 / unit handling: empty unit, no unit, ordinary unit, the known marker collision
+    for u in ("", None, "T", " None", "None"):
+        R.append(_rc(unit=u, vseed=5))
+    # b3: tolerance factors (with subregions, which inherit it), as attribute and through behaviour
+    for tf in ("1/1000", S(1e-6), S(3e-12), "int:0", "1/2"):
+        R.append(_rc(tf=tf, subs=[left, right]))
+    # c1: complex fields whose imaginary parts are zero or round-off stay complex
+    for dt in ("complex128", "complex64"):
+        R.append(_rc(dtype=dt, vmode="zero-imag", nvdim=2))
+    # c2: every form of boundary condition
+    for bc in ("neumann", "dirichlet", "Neumann", "x", "yx", ""):
+        R.append(_rc(bc=bc))
+    R.append(_rc(dims=["n", "d"], bc="nd", units=["nm", ""]))      # dimension names that are letters of 'dirichlet'
+    # c3 / d3: labels: explicit label on a scalar field, custom labels, label-less vector
+    R.append(_rc(nvdim=1, vdims=["mz"]))
+    R.append(_rc(nvdim=2, vdims=["b", "a"]))
+    R.append(_rc(nvdim=3, vdims=[], limit=["labels-absent-on-vector"]))
+    R.append(_rc(nvdim=5))
+    # d1: payload dtypes are kept (values that float64 / float32 cannot hold included)
+    for dt in ("int64", "uint64", "int8", "uint8", "bool", "float16", "float32", "complex64"):
+        R.append(_rc(dtype=dt, nvdim=2, vmode="bits", vseed=99,
+                     limit=["int-beyond-2**53"] if dt in ("int64", "uint64") else []))
+    # e2 / e3 and the flows: repeated reads run on every case above; side files, file written twice, twin,
+    # re-used read-back object, used-then-changed in place
+    R.append(_rc(sidecar="fitting", subs=[left, right]))
+    R.append(_rc(sidecar="fitting"))
+    R.append(_rc(sidecar="non-fitting", subs=[mid_frac]))
+    R.append(_rc(sidecar="non-fitting"))
+    R.append(_rc(prewrite=True, subs=[left]))
+    R.append(_rc(twin=True, valid="mask", nvdim=2))
+    R.append(_rc(generation=2, ck="i", subs=[left, mid_frac], dtype="int64", unit="A"))
+    R.append(_rc(subs=[left, right], ops=[dict(op="translate", v=["3/2", "-1/4"], via="mesh"),
+                                          dict(op="scale", f=["-2/1"], via="mesh")]))
+    R.append(_rc(ops=[dict(op="scale", f=["2/1", "1/2"], via="region"), dict(op="translate", v=["1/1", "1/1"], via="region")]))
+    R.append(_rc(n=[4, 2], subs=[left], ops=[dict(op="rot", ax=[0, 1], k=1, via="field")], units=["nm", "s"]))
+    R.append(_rc(n=[2, 2], cell=["1/2", "3/1"], ops=[dict(op="rot", ax=[0, 1], k=3, via="mesh")], units=["nm", "s"]))
+    R.append(_rc(valid="mask", nvdim=2, ops=[dict(op="array", seed=1), dict(op="valid", seed=2),
+                                             dict(op="valid", seed=3, setter=True), dict(op="unit", u="kA/m"),
+                                             dict(op="vdims", v=["q0", "q1"]), dict(op="bc", bc="neumann")]))
+    R.append(_rc(subs=[left, right, whole], ops=[dict(op="reverse-subs")]))
+    R.append(_rc(subs=[left, right], ops=[dict(op="drop-subs")]))
+    # decimal (non-dyadic) corners at a small scale, huge / tiny magnitudes
+    R.append(_rc(regime="scale", lo=[S(-2.5e-9), S(0.0)], cell=[S(1.1e-9), S(3.7e-9)], subs=[right], tf=None))
+    R.append(_rc(lo=[S(F(3) * F(2) ** 300), S(F(2) ** 300)], cell=[S(F(2) ** 298), S(F(2) ** 299)], subs=[right]))
+    R.append(_rc(lo=[S(F(3) * F(2) ** -200), S(-F(2) ** -200)], cell=[S(F(2) ** -203), S(F(2) ** -201)], subs=[right]))
+    out = list(R)
+    # files in the current layout written by this module (well-formed, and the malformed entries the reader refuses)
+    for k, d in enumerate([None, None, "sub-swapped", "no-subs", "unit-marker", "swap-corner", "equal-corner", "type",
+                           "version", "n-zero", "vdims-len", "array-last", "valid-shape", "sub-float-table"]):
+        out.append(dict(_rc(ck="i" if k % 2 else "f", lo=["-3/1", "5/1"], subs=[left, mid_frac] if k % 3 else [left],
+                            dtype=["float64", "complex128", "int64"][k % 3], nvdim=1 + k % 3, tf="1/1000",
+                            unit="T", valid="mask", vseed=600 + k), kind="foreign", defect=d))
+    # a2 / d2: legacy layout: corners in any order and of either type, with and without the json side file
+    def leg(**over):
+        l_ = dict(kind="legacy", nd=2, n=[4, 2], ck1="f", ck2="f", p1=["0/1", "0/1"], p2=["2/1", "2/1"], dim=1, dk="f",
+                  vseed=31, defect=None, side=None)
+        l_.update(over)
+        return l_
+    side1 = [dict(name="sr1", i0=[0, 0], ck="f", dims=["x", "y"], units=["m", "m"], tf=S(1e-12)),
+             dict(name="inner", i0=[3, 1], ck="i", dims=["a", "b"], units=["nm", ""], tf=S(1e-6))]
+    out += [leg(), leg(p1=["2/1", "0/1"], p2=["0/1", "2/1"]), leg(p1=["2/1", "2/1"], p2=["0/1", "0/1"], ck1="i", ck2="i"),
+            leg(p1=["2/1", "2/1"], p2=["-1/2", "0/1"], ck1="i", n=[5, 2], dim=3), leg(side=side1),
+            leg(side=side1, p1=["2/1", "2/1"], p2=["0/1", "0/1"], ck1="i", ck2="i", dk="i", dim=2),
+            leg(side=side1[:1], dk="c", dim=2), leg(nd=1, n=[3], p1=["5/1"], p2=["-1/1"], ck2="i"),
+            leg(nd=3, n=[1, 2, 2], p1=["0/1", "4/1", "0/1"], p2=["1/1", "0/1", "-2/1"], dim=3),
+            leg(defect="dim-mismatch"), leg(defect="equal-corner"), leg(defect="side-swapped", side=side1),
+            dict(kind="sample")]
+    return out
+
+
 def generate(rng, tier):
-    cases = []
-    nround = 330 if tier == "quick" else 2800
+    cases = directed_core()
+    nround = 250 if tier == "quick" else 2600
     want = nround
     tries = 0
     # the four corner-type combinations, with fractional subregion corners where the cell allows
@@ -766,11 +879,12 @@ def generate(rng, tier):
             rc["generation"] = 2
         rc["prewrite"] = rng.random() < 0.2
         rc["twin"] = rng.random() < 0.3
+        rc["sidecar"] = rng.choice([None, None, None, None, "fitting", "non-fitting"])
         if buildable(rc):
             cases.append(rc)
             want -= 1
     # files written by this module: current layout (well-formed and malformed) and legacy layout
-    nfor = 110 if tier == "quick" else 1000
+    nfor = 80 if tier == "quick" else 1000
     k = 0
     tries = 0
     while k < nfor and tries < 20 * nfor:
@@ -783,10 +897,9 @@ def generate(rng, tier):
         rc["defect"] = None if rng.random() < 0.4 else rng.choice(DEFECTS)
         cases.append(rc)
         k += 1
-    nleg = 80 if tier == "quick" else 700
+    nleg = 60 if tier == "quick" else 700
     for _ in range(nleg):
         cases.append(gen_legacy(rng, tier))
-    cases.append(dict(kind="sample"))
     return cases
 
 
@@ -976,6 +1089,20 @@ def run_round(rc):
         return rec
     view = view_file(path)
     extra = []
+    # a json side file left under the same name by an earlier OVF / VTK / legacy save: a current-layout
+    # file carries its subregions itself, the side file must be ignored (fitting or not)
+    side = path + ".subregions.json"
+    if os.path.exists(side):
+        os.remove(side)
+    if rc.get("sidecar"):
+        lo_, hi_ = [float(F(x)) for x in s0["pmin"]], [float(F(x)) for x in s0["pmax"]]
+        ed = [h - l for l, h in zip(lo_, hi_)]
+        if rc["sidecar"] == "fitting":
+            box = dict(pmin=lo_, pmax=hi_)
+        else:
+            box = dict(pmin=[h + e for h, e in zip(hi_, ed)], pmax=[h + 2 * e for h, e in zip(hi_, ed)])
+        box.update(dims=s0["dims"], units=s0["units"], tolerance_factor=float(F(s0["tf"])))
+        json.dump({"stale_side_entry": box}, open(side, "w"))
     # a second field of the same shape (other values, other mask) written and read in between: no cross-talk
     if rc.get("twin"):
         rc2 = dict(rc, vseed=rc["vseed"] + 101, ops=None, generation=1)
@@ -997,11 +1124,14 @@ def run_round(rc):
     frac_sub = any(F(x).denominator != 1 for s in s0["subs"] for x in s["pmin"] + s["pmax"])
     flow = "/".join(x for x in ["ops:" + "+".join(sorted({o["op"] + ":" + o.get("via", "") for o in rc["ops"]}))
                                 if rc.get("ops") else "", "gen2" if rc.get("generation") == 2 else "",
-                                "prewrite" if rc.get("prewrite") else "", "twin" if rc.get("twin") else ""] if x)
+                                "prewrite" if rc.get("prewrite") else "", "twin" if rc.get("twin") else "",
+                                "side:" + rc["sidecar"] if rc.get("sidecar") else ""] if x)
     key = (f"round/{len(s0['n'])}d/{kinds}/{'frac' if frac_sub else 'intg'}/{s0['dtype']}/nv{min(s0['nvdim'], 4)}/"
            f"{'lab' if rc['vdims'] else 'nolab'}/{'unit' if s0['unit'] is not None else 'nounit'}/"
            f"{rc['valid']}/{rc['regime']}/{'+'.join(rc.get('limit') or [])}/{flow}")
     if stb != "ok":
+        if os.path.exists(side):
+            os.remove(side)
         rec.update(obs=dict(state=brief, read_error=back, flow=flow), oracle=["read-failed"] + extra,
                    key=key + "/read-failed", size=size_of(s0))
         rec["coq"] = f"CRound false {c_state(s0)} {g.opt(view, c_view)} None"
@@ -1037,6 +1167,41 @@ def run_round(rc):
     # the tolerance factor through behaviour, not only as an attribute
     if tolerance_probes(f, g_):
         extra.append("tolerance-dependent-containment-differs")
+    # two read-backs of one file are separate objects all the way down ...
+    if st3 == "ok":
+        a_, b_ = g_, again[0]
+        shared = a_.mesh is b_.mesh or a_.mesh.region is b_.mesh.region or a_.mesh.subregions is b_.mesh.subregions
+        shared = shared or any(x is y for x in a_.mesh.subregions.values() for y in b_.mesh.subregions.values())
+        for x, y in [(a_.mesh.region.pmin, b_.mesh.region.pmin), (a_.mesh.region.pmax, b_.mesh.region.pmax),
+                     (a_.mesh.n, b_.mesh.n), (a_.array, b_.array), (a_.valid, b_.valid)]:
+            shared = shared or np.shares_memory(x, y)
+        if shared:
+            extra.append("read-back-fields-share-objects")
+    # ... so whatever is done in place to the first one, the untouched file reads the same again
+    rm = random.Random(rc["vseed"] + 11)
+    nd_ = g_.mesh.region.ndim
+
+    def scramble():
+        m_ = g_.mesh
+        shift = [1.0 + float(e) for e in m_.region.edges]
+        m_.translate(shift if nd_ > 1 else shift[0], inplace=True)
+        m_.region.scale(2.0, inplace=True)
+        m_.bc = "dirichlet" if m_.bc != "dirichlet" else ""
+        m_.subregions = {} if m_.subregions else {"added": df.Region(p1=m_.region.pmin, p2=m_.region.pmax)}
+        m_.region.units = ["zz"] * nd_
+        m_.region.tolerance_factor = 0.25
+        g_.array[...] = 0
+        g_.valid[...] = ~g_.valid
+        g_.unit = "scrambled"
+        if nd_ >= 2 and rm.random() < 0.5:
+            attempt(lambda: m_.rotate90(m_.region.dims[0], m_.region.dims[1], inplace=True))
+    with np.errstate(all="ignore"):
+        stsc, _e = attempt(scramble)
+    st5, third_read = read_back(path)
+    if st5 != "ok" or states_match(s1, third_read[1], exact=True):
+        extra.append("read-after-changing-an-earlier-read-back-differs")
+    if os.path.exists(side):
+        os.remove(side)
     if s0["unit"] == "None":
         rec["tags"] = [KNOWN_UNIT_MARKER]
     rec["oracle"] = sorted(set(rec["oracle"] + extra))
